@@ -44,10 +44,19 @@ EscFirst(n, form) ==
       c == cps[1]
       hex == <<HexDigit(c \div 4096, FALSE), HexDigit((c \div 256) % 16, FALSE), HexDigit((c \div 16) % 16, FALSE), HexDigit(c % 16, FALSE)>>
   IN (IF form = 1 THEN <<92, 117>> \o hex ELSE (<<92, 117, 123>> \o hex) \o <<125>>) \o EncodeCps(Tail(cps))
+\* nesc = 3 / 4: the last character as \uXXXX / \u{XXXX} (the escape may be the very end of the input)
+EscLast(n, form) ==
+  LET cps == CodePoints(n)
+      c == cps[Len(cps)]
+      hex == <<HexDigit(c \div 4096, FALSE), HexDigit((c \div 256) % 16, FALSE), HexDigit((c \div 16) % 16, FALSE), HexDigit(c % 16, FALSE)>>
+  IN EncodeCps(SubSeq(cps, 1, Len(cps) - 1)) \o (IF form = 1 THEN <<92, 117>> \o hex ELSE (<<92, 117, 123>> \o hex) \o <<125>>)
+BareText(n, k) ==
+  IF k \in {1, 2} /\ CodePoints(n)[1] < 55296 THEN EscFirst(n, k)
+  ELSE IF k \in {3, 4} /\ CodePoints(n)[Len(CodePoints(n))] < 55296 THEN EscLast(n, k - 2)
+  ELSE n
 NameText(n, st) ==
   IF st.quote \/ ~IsBareName(n) THEN QuotedTextE(n, st)
-  ELSE IF NameEsc(st) > 0 /\ CodePoints(n)[1] < 55296 THEN EscFirst(n, NameEsc(st))
-  ELSE n
+  ELSE BareText(n, NameEsc(st))
 
 IndexText(ix, st) ==
   IF ix.t = "n" THEN IntTextOf(ix.v)
@@ -128,8 +137,7 @@ PathPlain(ps) == \A i \in 1..Len(ps) : StepPlain(ps[i])
 KpElemText(e, st) ==
   IF "i" \in DOMAIN e THEN IntTextOf(e.i)
   ELSE IF "q" \in DOMAIN e THEN QuotedTextE(e.q, st)
-  ELSE IF NameEsc(st) > 0 /\ CodePoints(e.n)[1] < 55296 THEN EscFirst(e.n, NameEsc(st))
-  ELSE e.n
+  ELSE BareText(e.n, NameEsc(st))
 KeyPathText(kp, st) ==
   ((WS(st) \o <<123>>) \o (IF Len(kp) = 0 THEN WS(st) ELSE JoinWith([i \in 1..Len(kp) |-> (WS(st) \o KpElemText(kp[i], st)) \o WS(st)], <<44>>)))
   \o <<125>> \o WS(st)
